@@ -6,8 +6,10 @@ import TabulaModel.Model.Reader
 XObject. This file adds what C07 needs on top of it: the extractor's font table `e.fonts`
 over the whole history of a content stream *including* `Do` — `RegisterFontsFromResources`
 on the page and on every form's own `/Resources`, the auto-registration of `Tf`, the
-snapshot/restore of the bindings around a form (fix 613ae5d), `q`/`Q`, the nesting limit and
-the Form XObject byte budget. The font dictionaries are read by `Reader.parseFont`
+snapshot/restore of the bindings around a form (fix 613ae5d), the font `Tf` selects carried
+with the graphics state (`gs.Text.Font`, fix fa0c44f: saved and restored by `q`/`Q` and around
+`Do`, used by `showText` instead of a lookup by name), the nesting limit and the Form XObject
+byte budget. The font dictionaries are read by `Reader.parseFont`
 (`NewType1Font` / `NewTrueTypeFont` / `NewType0Font` as far as `DecodeString` needs them),
 strings are decoded by `FontDecode.decodeString`, content streams are parsed by
 `Pdf.CS.csParse`. The result is the text of every fragment in show order, before the
@@ -16,7 +18,8 @@ position-based de-duplication (positions are C08's business).
 Go functions followed: `NewExtractor`, `SetResourceContext`, `RegisterFontsFromPage`,
 `RegisterFontsFromResources`, `RegisterFont`, `RegisterParsedFont`, `Extract`,
 `ExtractFromBytes`, `processOperation` (`q Q Tf Tj TJ ' " Do`), `invokeXObject`,
-`mergeResources`, `showText`, `showTextArray`; graphicsstate `Save`/`Restore`/`SetFont`.
+`mergeResources`, `showText`, `showTextArray`; graphicsstate `Save`/`Restore`/`SetFont` and
+`TextState.Font`.
 Core Lean only.
 -/
 namespace Tabula.FormFonts
@@ -139,8 +142,11 @@ def mergeResources (parent child : Dict) : Dict :=
 structure St where
   /-- `gs.Text.FontName` -/
   cur : Str := []
-  /-- the font names on the graphics-state stack, innermost first -/
-  stack : List Str := []
+  /-- `gs.Text.Font`: the font `cur` was bound to when `Tf` selected it (`none` = nil: no
+  `Tf` yet) -/
+  sel : Option FontDecode.Font := none
+  /-- the font name and font (`gs.Text`) on the graphics-state stack, innermost first -/
+  stack : List (Str × Option FontDecode.Font) := []
   /-- `e.fonts` -/
   fonts : FontMap
   /-- `e.resources` (`none` = nil: `SetResourceContext` was not called) -/
@@ -157,9 +163,20 @@ structure St where
 `NewFont(name, "Helvetica", "Type1")` -/
 def defaultFont : FontDecode.Font := Reader.defaultFont
 
-/-- `showText`: the string decoded by the font registered under the current font name, or by
-the font-less path -/
+/-- `showText`: the string decoded by the font `Tf` selected (`e.gs.Text.Font`, carried with
+the graphics state), or by the font-less path when none is selected -/
 def showOne (nfc : List Nat → List Nat) (st : St) (data : Str) : St :=
+  match st.sel with
+  | some f =>
+    match FontDecode.decodeString nfc f data with
+    | some s => { st with out := st.out ++ [s] }
+    | none => { st with bad := true }
+  | none => { st with out := st.out ++ [FontDecode.showTextNoFont nfc data] }
+
+/-- `showText` BEFORE fix fa0c44f (kept for the history, `C07Fonts.inherited_font_pinned_counterexample`):
+the font was looked up again, by the current font NAME, in `e.fonts` at every show — inside a
+Form XObject whose own `/Resources` rebind that name, the form's font, not the selected one -/
+def showOneOld (nfc : List Nat → List Nat) (st : St) (data : Str) : St :=
   match st.fonts st.cur with
   | some f =>
     match FontDecode.decodeString nfc f data with
@@ -173,16 +190,20 @@ def showArray (nfc : List Nat → List Nat) : St → List Obj → St
   | st, .str s :: r => showArray nfc (showOne nfc st s) r
   | st, _ :: r => showArray nfc st r
 
-/-- the `Tf` case -/
+/-- the `Tf` case: `gs.SetFont(name, size)`, auto-registration of a name nothing is registered
+under, then `e.gs.Text.Font = e.fonts[fontName]` — the selection is the font the name is
+bound to NOW (the table is consulted once, here, and not again at the shows) -/
 def setFont (st : St) (n : Str) : St :=
   let name := if n.head? = some 47 then n else 47 :: n
-  { st with cur := name, fonts := if (st.fonts name).isSome then st.fonts else st.fonts.set name defaultFont }
+  match st.fonts name with
+  | some f => { st with cur := name, sel := some f }
+  | none => { st with cur := name, fonts := st.fonts.set name defaultFont, sel := some defaultFont }
 
 /-- `gs.Restore()`; `none` = stack underflow -/
 def restore (st : St) : Option St :=
   match st.stack with
   | [] => none
-  | c :: r => some { st with cur := c, stack := r }
+  | c :: r => some { st with cur := c.1, sel := c.2, stack := r }
 
 /-- `strings.TrimPrefix(name, "/")` -/
 def trimSlash : Str → Str
@@ -248,7 +269,7 @@ def formResDict (res : FRes) (sd rd : Dict) : Dict :=
 /-- the state in which a form's content runs: content charged, fonts registered, graphics
 state saved, resources switched -/
 def enterForm (res : FRes) (st : St) (rd sd : Dict) (data : Str) : St :=
-  { st with bytes := charge st data, fonts := formFonts res sd st.fonts, stack := st.cur :: st.stack,
+  { st with bytes := charge st data, fonts := formFonts res sd st.fonts, stack := (st.cur, st.sel) :: st.stack,
             resources := some (formResDict res sd rd) }
 
 /-- `e.gs.Restore()` with its error ignored -/
@@ -269,7 +290,7 @@ mutual
 `fuel` = `maxXObjectDepth - xobjectDepth`. -/
 def step (nfc : List Nat → List Nat) (res : FRes) : Nat → St → Pdf.CS.Operation → St × Bool
   | fuel, st, op =>
-    if op.op = Reader.opq then ({ st with stack := st.cur :: st.stack }, false)
+    if op.op = Reader.opq then ({ st with stack := (st.cur, st.sel) :: st.stack }, false)
     else if op.op = Reader.opQ then
       match restore st with
       | some st' => (st', false)
